@@ -83,6 +83,14 @@ def scenarios(res):
         for i in range(0, len(gets), 100):
             scs.append({"id": sid, "rr": rr, "rq": 1, "gets": gets[i:i + 100]})
             sid += 1
+    # the owner's own copy is the newest one and its deadline has passed (not evicted yet): the read reports not-found, an older
+    # copy without a deadline on a previous owner or a backup owner must not win (only the result is judged, see check_get)
+    for rr in (False, True):
+        gets = []
+        for l in ([3, 1, 0, 0], [3, 2, 1, 0], [2, 0, 1, 1], [3, 0, 0, 2], [2, 1, 1, 1], [3, 3, 0, 0]):
+            gets.append({"copies": list(l), "down": [], "expired": [0]})
+        scs.append({"id": sid, "rr": rr, "rq": 1, "gets": gets})
+        sid += 1
     # (d): Expire as the newest write, then an older copy turns up
     for rr in (False, True):
         scs.append({"id": sid, "rr": rr, "rq": 1, "expires": [{"mode": "merge"}, {"mode": "backup"}, {"mode": "merge"}]})
@@ -138,6 +146,8 @@ def check_get(sc, g, ob):
             return "Get returned %s although copies %s are reachable" % (ob["res"], cand)
         elif not any(i in exp for i, ts in cand if ts == mx):
             return "Get returned %s although the newest copy is not expired" % ob["res"]
+    if 0 in exp:
+        return None       # the owner's expired copy is evicted cluster-wide within ~100 ms: the copies after the read are a race
     # copies after the read
     before = [None] * 8
     for i in range(4):
